@@ -33,8 +33,10 @@ def configs(tier, seed):
         for grid in dsm.GRIDS:
             # with 3 items the mirrored end intervals make every interval (y2-y0)/2 long: an "uneven" grid needs n >= 4
             for n in (ns if grid != "uneven" else sorted(set(ns) | {4}) if tier == "thorough" else [4]):
-                for ia, npts in [("start", 1), ("middle", 1), ("end", 1)] + [("middle", k) for k in range(2, 11)]:
-                    shapes = PSHAPES if (npts <= 2 or tier == "thorough") else (["scalar", "rt"] if npts <= 4 else ["scalar"] if npts % 2 else ["rt"])
+                # (inflow_at is documented as ignored by the multi-point rules: start / end with 2..10 points must give the same table)
+                ignored = [(ia, k) for k in ((2, 3, 6) if tier == "quick" else range(2, 11)) for ia in ("start", "end")]
+                for ia, npts in [("start", 1), ("middle", 1), ("end", 1)] + [("middle", k) for k in range(2, 11)] + ignored:
+                    shapes = PSHAPES if ((npts <= 2 or tier == "thorough") and ia == "middle" or npts == 1) else (["scalar", "rt"] if npts <= 4 and ia == "middle" else ["scalar"] if npts % 2 else ["rt"])
                     if grid != "uneven" and tier == "quick" and npts > 3:
                         continue
                     for ps in shapes:
